@@ -1,5 +1,7 @@
+import FrappyProofs.Lemmas.Describe
 import FrappyProofs.Lemmas.Dispatch
 import FrappyProofs.Lemmas.Logging
 import FrappyProofs.Lemmas.Rotate
 import FrappyProofs.Props.C04
+import FrappyProofs.Props.C06
 import FrappyProofs.Props.C20
